@@ -15,6 +15,7 @@ pub mod c39;
 pub mod c12;
 pub mod c13;
 pub mod c14;
+pub mod c15;
 pub mod c18;
 pub mod c20;
 pub mod c21;
@@ -42,6 +43,9 @@ pub fn all() -> Vec<CheckDef> {
         CheckDef { id: "C12", shards: one, run: c12::run, replay: Some(c12::replay) },
         CheckDef { id: "C13", shards: one, run: c13::run, replay: Some(c13::replay) },
         CheckDef { id: "C14", shards: one, run: c14::run, replay: Some(c14::replay) },
+        CheckDef { id: "C15", shards: four, run: c15::run_c15, replay: Some(c15::replay_c15) },
+        CheckDef { id: "C16", shards: four, run: c15::run_c16, replay: Some(c15::replay_c16) },
+        CheckDef { id: "C17", shards: four, run: c15::run_c17, replay: Some(c15::replay_c17) },
         CheckDef { id: "C18", shards: one, run: c18::run, replay: Some(c18::replay) },
         CheckDef { id: "C20", shards: one, run: c20::run, replay: Some(c20::replay) },
         CheckDef { id: "C21", shards: one, run: c21::run, replay: Some(c21::replay) },
